@@ -727,6 +727,7 @@ def evaluate2(ctx, cases, name="rcases"):
     evs = [("mm_record", "bad_indices agree_record rcases 0"), ("mm_rec_replay", "bad_indices agree_rec_replay rcases 0"),
            ("mm_opt_replay", "bad_indices agree_opt_replay rcases 0"), ("v_rr", "bad_indices ok_rr rcases 0"),
            ("outside", "bad_indices rr_class rcases 0"),
+           ("in_sw", "bad_indices (fun k => negb (rr_class_sw k)) rcases 0"),
            ("differ", "bad_indices (fun k => list_eqb nd_eqb (rr_rec_replay k) (rr_opt_replay k)) rcases 0")]
     res = coq.run_cases(ctx, name, PRE, defs, evs)
     if res is None:
@@ -759,7 +760,7 @@ def verdict2(ctx, cases, res):
 
 
 KINDS2 = ["plain", "depth", "filter", "notrace", "fn", "fd", "time", "timetrig", "caller", "caller_time", "mix2",
-          "deptrig", "fdt", "switch"]
+          "deptrig", "fdt", "switch", "switch"]
 
 
 # ---------------------------------------------------------------- line 3: several tasks
@@ -1182,7 +1183,8 @@ def run(ctx):
                       json.dumps([x.to_json() for x in c["forest"]])),
                  nontrivial=c["rec_replay"] != [] and len(c["records"]) != 2 * sum(x.size() for x in c["forest"]),
                  tags=["record-vs-replay", "rr:" + c["kind"], "rr:" + c["shape"]]
-                 + (["rr:in-agreement-class"] if i not in outside2 else []),
+                 + (["rr:in-agreement-class"] if i not in outside2 else [])
+                 + (["rr:in-switch-class"] if res2 and i in res2["in_sw"] else []),
                  size=sum(x.size() for x in c["forest"]),
                  sample=rcase_json(c) if i == len(w2) else None)
     verdict2(ctx, rcases, res2)
